@@ -1539,7 +1539,7 @@ lyds_merge_nodes2_among(struct lyd_node **first_dst, struct lyd_node **leader_ds
 
     schema = (*leader_dst)->schema;
     rbn = *dst_iter;
-    for (node = RBN_DNODE(*dst_iter); node->next && (node->schema == schema); node = dst->next) {
+    for (node = RBN_DNODE(*dst_iter); node->next && (node->next->schema == schema); node = dst->next) {
         /* insert node from destination (leaf-)list into @p rbt_src */
         rbn_prev = rbn;
         ret = rb_insert(node->next, rbt_src, &rbn);
